@@ -1071,6 +1071,96 @@ impl Triangulation3D {
     }
 } // end of impl Triangulation3D
 
+/// Verification hook: read-only copy of the complete state of one triangle slot of a
+/// [`Triangulation3D`] (geometry, adjacency, constraint marks, validity and cached values).
+#[cfg(geometry3d_verif)]
+#[derive(Debug, Clone, Copy)]
+pub struct VerifTriPiece {
+    /// The triangle stored in the slot
+    pub triangle: Triangle3D,
+    /// Neighbour slots across the edges AB, BC, CA
+    pub neighbours: [Option<usize>; 3],
+    /// Constraint marks of the edges AB, BC, CA
+    pub constraints: [bool; 3],
+    /// Cached aspect ratio
+    pub aspect_ratio: Float,
+    /// Cached circumcenter
+    pub circumcenter: Point3D,
+    /// Cached centroid
+    pub centroid: Point3D,
+    /// Whether the slot holds a live triangle
+    pub valid: bool,
+    /// The index stored in the slot
+    pub index: usize,
+}
+
+/// Verification hooks (compiled only with `--cfg geometry3d_verif`; add-only): a read-only view of
+/// the private state and public wrappers that apply exactly one of the private refinement steps.
+#[cfg(geometry3d_verif)]
+impl Triangulation3D {
+    /// Verification hook: copies of all triangle slots (valid or not), in storage order
+    pub fn verif_pieces(&self) -> Vec<VerifTriPiece> {
+        self.triangles
+            .iter()
+            .map(|t| VerifTriPiece {
+                triangle: t.triangle,
+                neighbours: [t.n0, t.n1, t.n2],
+                constraints: [t.c0, t.c1, t.c2],
+                aspect_ratio: t.aspect_ratio,
+                circumcenter: t.circumcenter,
+                centroid: t.centroid,
+                valid: t.valid,
+                index: t.index,
+            })
+            .collect()
+    }
+
+    /// Verification hook: applies one `split_edge` step (`edge` is 0, 1 or 2)
+    pub fn verif_split_edge(&mut self, i: usize, edge: usize, p: Point3D) -> Result<(), String> {
+        self.split_edge(i, Edge::from_i(edge), p)
+    }
+
+    /// Verification hook: applies one `split_triangle` step
+    pub fn verif_split_triangle(&mut self, i: usize, p: Point3D) -> Result<(), String> {
+        self.split_triangle(i, p)
+    }
+
+    /// Verification hook: applies one `flip_diagonal` step (`edge` is 0, 1 or 2)
+    pub fn verif_flip_diagonal(&mut self, i: usize, edge: usize) -> Result<(), String> {
+        self.flip_diagonal(i, Edge::from_i(edge))
+    }
+
+    /// Verification hook: applies one `restore_delaunay` step
+    pub fn verif_restore_delaunay(&mut self, max_aspect_ratio: Float) -> Result<(), String> {
+        self.restore_delaunay(max_aspect_ratio)
+    }
+
+    /// Verification hook: applies one `add_point` step
+    pub fn verif_add_point(&mut self, p: Point3D) -> Result<bool, String> {
+        self.add_point(p)
+    }
+
+    /// Verification hook: applies one (recursive) `refine` step
+    pub fn verif_refine(&mut self, max_area: Float, max_aspect_ratio: Float) -> Result<(), String> {
+        self.refine(max_area, max_aspect_ratio)
+    }
+
+    /// Verification hook: `get_flipped_aspect_ratio` (`edge` is 0, 1 or 2)
+    pub fn verif_get_flipped_aspect_ratio(
+        &self,
+        i: usize,
+        edge: usize,
+    ) -> Result<Option<Float>, String> {
+        self.get_flipped_aspect_ratio(i, Edge::from_i(edge))
+    }
+}
+
+/// Verification hook: re-export of the private convexity test used before flipping a diagonal
+#[cfg(geometry3d_verif)]
+pub fn verif_is_convex(a: Point3D, b: Point3D, c: Point3D, d: Point3D) -> bool {
+    is_convex(a, b, c, d)
+}
+
 pub fn is_convex(a: Point3D, b: Point3D, c: Point3D, d: Point3D) -> bool {
     // The points are aligned like this, if it is convex.
     //         B
